@@ -12,6 +12,7 @@
 package c19
 
 import (
+	"sync"
 	"bytes"
 	"encoding/binary"
 	"fmt"
@@ -264,14 +265,28 @@ func (decompPool) PutDecompressBytes([]byte) {}
 type decomp struct {
 	name string
 	d    kgo.Decompressor
+	keep *keepList // results of earlier Decompress calls, still held by the "application"
+}
+
+// kept is a Decompress result the caller still holds (a consumer holds batch N's records while
+// batch N+1 is decompressed): the very slice that was returned, and what it must still contain.
+type keepList struct {
+	mu   sync.Mutex
+	list []kept
+}
+
+type kept struct {
+	got, want []byte
+	codec     string
+	size      int
 }
 
 func newDecomps() []decomp {
 	return []decomp{
-		{"default", kgo.DefaultDecompressor()},
-		{"pool-nil", kgo.DefaultDecompressor(decompPool{0, 0})},
-		{"pool-len64-cap64K", kgo.DefaultDecompressor(decompPool{64, 64 << 10})},
-		{"pool-cap16", kgo.DefaultDecompressor(decompPool{0, 16})},
+		{"default", kgo.DefaultDecompressor(), new(keepList)},
+		{"pool-nil", kgo.DefaultDecompressor(decompPool{0, 0}), nil},
+		{"pool-len64-cap64K", kgo.DefaultDecompressor(decompPool{64, 64 << 10}), nil},
+		{"pool-cap16", kgo.DefaultDecompressor(decompPool{0, 16}), nil},
 	}
 }
 
@@ -342,6 +357,28 @@ func (m *monitor) roundTrip(cfg *config, fs flagSet, dst *bytes.Buffer, payload 
 		dd["got_head"] = head(back, 48)
 		m.viol("roundtrip-mismatch/"+codecNames[used], dd)
 		return
+	}
+	// results of earlier calls that the caller still holds must not have changed (with a
+	// user-supplied pool the buffers are the user's to recycle, so only the default
+	// decompressor is judged)
+	if d.keep != nil {
+		d.keep.mu.Lock()
+		for _, k := range d.keep.list {
+			if !bytes.Equal(k.got, k.want) {
+				dd := desc()
+				dd["earlier_codec"], dd["earlier_len"], dd["decompressor"] = k.codec, k.size, d.name
+				d.keep.list = nil
+				d.keep.mu.Unlock()
+				m.viol("earlier-Decompress-result-changed-by-a-later-call/"+k.codec, dd)
+				return
+			}
+		}
+		d.keep.list = append(d.keep.list, kept{back, payload, codecNames[used], len(payload)})
+		if len(d.keep.list) > 8 {
+			d.keep.list = d.keep.list[1:]
+		}
+		r.Count("held_results_rechecked", len(d.keep.list))
+		d.keep.mu.Unlock()
 	}
 	// independent decoder of the reported codec
 	if used >= 0 && used <= 4 {
@@ -595,6 +632,74 @@ func TestCheck(t *testing.T) {
 	})
 
 	phase("1-roundtrip")
+	// ---- phase 1h: results held across later calls, one goroutine, growing sizes ----
+	// A consumer holds the records of batch N while batch N+1 is decompressed. Each codec
+	// decompresses a payload larger than anything it has seen before (so that pooled buffers
+	// have to grow), the result is held, and four more payloads of mixed codecs and sizes are
+	// decompressed before the held bytes are compared with what was compressed.
+	{
+		dd := kgo.DefaultDecompressor()
+		hrng := r.Rand("held", 0)
+		type heldRes struct {
+			got, want []byte
+			codec     string
+		}
+		var held []heldRes
+		check := func() bool {
+			for _, h := range held {
+				if !bytes.Equal(h.got, h.want) {
+					m.viol("earlier-Decompress-result-changed-by-a-later-call/"+h.codec, map[string]any{"earlier_len": len(h.want), "held_results": len(held), "phase": "sequential growing sizes"})
+					return false
+				}
+			}
+			return true
+		}
+		mk := func(codec kgo.CompressionCodecType, n int) (z []byte, payload []byte, ok bool) {
+			payload = make([]byte, n)
+			fill(hrng, payload)
+			comp, err := kgo.DefaultCompressor(kgo.CompressionCodec(mkConfig(prefEntry{codec: codec}).prefs[0].build()))
+			if err != nil || comp == nil {
+				return nil, nil, false
+			}
+			out, used := comp.Compress(new(bytes.Buffer), payload)
+			if used != codec {
+				return nil, nil, false
+			}
+			return bytes.Clone(out), payload, true
+		}
+		sizes := []int{9 << 10, 20 << 10, 70 << 10, 200 << 10, 600 << 10, 1500 << 10, 3 << 20}
+	outer:
+		for round := 0; round < r.Pick(2, 6); round++ {
+			for _, sz := range sizes {
+				for _, codec := range []kgo.CompressionCodecType{kgo.CodecGzip, kgo.CodecSnappy, kgo.CodecLz4, kgo.CodecZstd} {
+					z, payload, ok := mk(codec, sz+round*4099+int(codec)*131)
+					if !ok {
+						continue
+					}
+					got, err := dd.Decompress(z, codec)
+					if err != nil {
+						continue
+					}
+					held = append(held, heldRes{got, payload, codecNames[codec]})
+					for k := 0; k < 4; k++ {
+						c2 := kgo.CompressionCodecType(1 + hrng.IntN(4))
+						if z2, _, ok := mk(c2, 1+hrng.IntN(sz)); ok {
+							dd.Decompress(z2, c2)
+						}
+					}
+					r.Eval(1)
+					r.Count("held_results_rechecked_sequential", len(held))
+					if !check() {
+						break outer
+					}
+					if len(held) > 6 {
+						held = held[1:]
+					}
+				}
+			}
+		}
+	}
+	phase("1h-held")
 	// a few multi-MiB payloads per codec
 	bigN := r.Pick(1, 4)
 	var bigJobs []job
